@@ -68,6 +68,25 @@ def parseCfg4 (kind srcs ini eff : String) (via : Bool) : Option Cfg :=
     else ini.toNat?.map fun v => { srcs := vs, init := some v, eff := e, viaMemo := via }
   | _, _ => none
 
+def parseRd (k : Nat) (tok : String) : Option Rd :=
+  if tok == "X" then (if k ≥ 2 then some .idx else none)
+  else match tok.toList with
+    | 'R' :: ds => (String.ofList ds).toNat?.bind fun i => if i < k then some (.src i) else none
+    | 'C' :: ds => (String.ofList ds).toNat?.bind fun i => if i < k then some (.ifFlag i) else none
+    | _ => none
+
+def parseRds (k : Nat) (s : String) : Option (List Rd) :=
+  if s == "-" then some [] else (s.splitOn ".").mapM (parseRd k)
+
+/-- `<body>/<pre-await>/<post-await>`: body and pre-await reads both happen when the future is created -/
+def parseFx (k : Nat) (s : String) : Option Fetcher :=
+  match s.splitOn "/" with
+  | [b, p, a] =>
+    match parseRds k b, parseRds k p, parseRds k a with
+    | some b, some p, some a => some { sync := b ++ p, post := a }
+    | _, _, _ => none
+  | _ => none
+
 def parseCfg (w : List String) : Option Cfg :=
   match w with
   | [kind, srcs, ini, eff] => parseCfg4 kind srcs ini eff false
@@ -76,6 +95,11 @@ def parseCfg (w : List String) : Option Cfg :=
     else if via == "sig" then parseCfg4 kind srcs ini eff false
     else if via == "memo" then parseCfg4 kind srcs ini eff true
     else none
+  | [kind, srcs, ini, eff, via, fx] =>
+    if !kinds.contains kind || via != "sig" then none
+    else match parseCfg4 kind srcs ini eff false with
+      | some c => (parseFx c.srcs.length fx).map fun f => { c with fx := some f }
+      | none => none
   | _ => none
 
 def stepOp (s : State) (w : List String) : Option State :=
